@@ -183,9 +183,9 @@ def combine1fiber(inloglam, objflux, newloglam, objivar=None, verbose=False,
         bitval = sdss_flagval('SPPIXMASK', 'NODATA')
         if 'finalmask' in kwargs:
             bitval |= (sdss_flagval('SPPIXMASK', 'NOPLUG') *
-                       (kwargs['finalmask'][0] & sdss_flagval('SPPIXMASK', 'NODATA')))
-        andmask = andmask | bitval
-        ormask = ormask | bitval
+                       (np.uint64(kwargs['finalmask'][0]) & sdss_flagval('SPPIXMASK', 'NODATA')))
+        andmask = andmask | andmask.dtype.type(bitval)
+        ormask = ormask | ormask.dtype.type(bitval)
         return (newflux, newivar)
     else:
         #
@@ -275,7 +275,7 @@ def combine1fiber(inloglam, objflux, newloglam, objivar=None, verbose=False,
                         log.debug('Replaced {0:d} pixels in objivar.'.format(len(ss[ireplace])))
                     if 'finalmask' in kwargs:
                         kwargs['finalmask'][ss[ireplace]] = (kwargs['finalmask'][ss[ireplace]] |
-                                                             sdss_flagval('SPPIXMASK', 'COMBINEREJ'))
+                                                             kwargs['finalmask'].dtype.type(sdss_flagval('SPPIXMASK', 'COMBINEREJ')))
             fullcombmask[ss] = bmask
         #
         # Restore objivar
@@ -375,8 +375,8 @@ def combine1fiber(inloglam, objflux, newloglam, objivar=None, verbose=False,
         maxglam = newloglam[goodpts].max()
         ibad = ((newloglam < minglam) | (newloglam > maxglam))
         if ibad.any():
-            ormask[ibad] |= sdss_flagval('SPPIXMASK', 'NODATA')
-            andmask[ibad] |= sdss_flagval('SPPIXMASK', 'NODATA')
+            ormask[ibad] |= ormask.dtype.type(sdss_flagval('SPPIXMASK', 'NODATA'))
+            andmask[ibad] |= andmask.dtype.type(sdss_flagval('SPPIXMASK', 'NODATA'))
     #
     # Replace values of -1 in the andmask with 0.
     #
